@@ -26,7 +26,11 @@ use std::sync::atomic::{AtomicU64, Ordering};
 use std::sync::Mutex;
 use std::time::{Duration, Instant};
 
-const VERIF_DIR: &str = "/verif";
+/// Root of the verification checkout (evidence/, replays/, known_findings.json). check.sh exports
+/// LIQUID_SIM_VERIF_DIR so that a snapshot of /verif writes into itself.
+fn verif_dir() -> String {
+    std::env::var("LIQUID_SIM_VERIF_DIR").unwrap_or_else(|_| "/verif".to_string())
+}
 
 fn engine_for(id: &str) -> Option<Box<dyn Engine>> {
     engines::all().into_iter().find(|e| e.id() == id)
@@ -105,7 +109,7 @@ struct KnownFinding {
 }
 
 fn load_known() -> Result<Vec<KnownFinding>, String> {
-    let p = format!("{VERIF_DIR}/known_findings.json");
+    let p = format!("{}/known_findings.json", verif_dir());
     let Ok(txt) = std::fs::read_to_string(&p) else { return Ok(vec![]) };
     let j: Json = serde_json::from_str(&txt).map_err(|e| format!("{p}: {e}"))?;
     let mut v = vec![];
@@ -277,7 +281,7 @@ fn write_evidence(eng: &dyn Engine, quick: bool, seed: u64, agg: &Agg, wall: f64
         },
         "assumptions": eng.assumptions(),
     });
-    let dir = format!("{VERIF_DIR}/evidence");
+    let dir = format!("{}/evidence", verif_dir());
     std::fs::create_dir_all(&dir).map_err(|e| e.to_string())?;
     let path = format!("{dir}/{}.json", eng.id());
     let tmp = format!("{path}.tmp");
@@ -341,8 +345,8 @@ fn cmd_check(args: &Args) -> i32 {
             Ok(m) => m,
             Err(_) => v.clone(),
         };
-        let file = format!("{VERIF_DIR}/replays/{}-{:016x}-{}.json", eng.id(), prng::run_seed(args.seed, eng.id(), *idx), v.class);
-        let _ = std::fs::create_dir_all(format!("{VERIF_DIR}/replays"));
+        let file = format!("{}/replays/{}-{:016x}-{}.json", verif_dir(), eng.id(), prng::run_seed(args.seed, eng.id(), *idx), v.class);
+        let _ = std::fs::create_dir_all(format!("{}/replays", verif_dir()));
         let body = json!({
             "property": eng.id(),
             "class": vmin.class,
